@@ -80,6 +80,8 @@ def run(chk, replay=None):
         day, msd = split(ms)
         dt = guarded(tu.epoch_time_to_utc_datetime, typed(ms, idx))
         chk.count()
+        if not isinstance(dt, Raised) and not isinstance(dt, datetime.datetime):
+            dt = Raised(TypeError('returned %r instead of a datetime' % (dt,)))        # (no datetime is no answer)
         if isinstance(dt, Raised):
             records.append([day, msd] + [-1] * 7 + [-999999, 0] * 3 + [0, -999999, 0, 0])
             raw.append((ms, repr(dt)))
